@@ -47,6 +47,13 @@ Best(m, w, i) ==
 HasTrans(m, tt) == \E k \in DOMAIN m.trans : m.trans[k][1] = tt
 TransTarget(m, tt) == m.trans[MinOf({ k \in DOMAIN m.trans : m.trans[k][1] = tt })][2]
 
+\* first position >= i with a candidate together with its admissible tokens: <<position, Best>>;
+\* <<Len(w)+1, {}>> if there is none (Best is empty exactly when there is no candidate)
+RECURSIVE FirstBest(_, _, _)
+FirstBest(m, w, i) ==
+  IF i > Len(w) THEN << Len(w) + 1, {} >>
+  ELSE LET B == Best(m, w, i) IN IF B # {} THEN << i, B >> ELSE FirstBest(m, w, i + 1)
+
 \* first position >= i with a candidate, or Len(w)+1 if there is none
 RECURSIVE FirstTokenPos(_, _, _)
 FirstTokenPos(m, w, i) ==
